@@ -1131,7 +1131,9 @@ def gen_model(g, gs, cfg, ops, c, invalid=False):
             mv = G.rand_vec(g, p, -2, 2)
             if g.random() < 0.03:
                 mv[g.randrange(p)] = g.choice([float("inf"), float("nan"), -float("inf")])      # non-finite parameters
-            rec["means"] = arg(cast(mv, g.choice(["<f8", "<f8", "<f4"]), g), must_nd=True)
+            if g.random() < 0.08:
+                mv = np.array([g.randint(-2, 2) for _ in range(p)], dtype=np.int64)        # integer-typed parameters
+            rec["means"] = arg(cast(mv, g.choice(["<f8", "<f8", "<f4"]) if mv.dtype.kind == "f" else "<i8", g), must_nd=True)
             if g.random() < 0.06 and is_ref(rec["means"]) and ops[-1].get("op") == "buf.new" and ops[-1].get("as") == "nd":
                 ops[-1]["as"] = "col"
         if g.random() < 0.3:
